@@ -11,6 +11,7 @@ import (
 	"context"
 	"errors"
 	"fmt"
+	"os"
 	"runtime"
 	"strings"
 	"testing"
@@ -34,13 +35,13 @@ import (
 func TestMain(m *testing.M) { stats.Main(m) }
 
 // Known finding: blocks of a range that was committed out of order before a crash are overwritten with an empty
-// entry by the resumed block-transactions migration (see FINDINGS.md).
+// entry by the resumed block-transactions migration (witness and description: known_test.go).
 const keyBTOverwrite = "c18-blocktransactions-resume-overwrites-migrated-range"
 
 // Known finding: empty blocks get a combined entry only while a range walk passes over them, and the walk (re)starts
 // at the first block that still has per-tx entries: empty blocks below the first 10-block range holding a
 // transaction, and - after an interruption - empty blocks above the last block holding a transaction, never get
-// one: the current accessors answer "key not found" instead of an empty list (see FINDINGS.md).
+// one: the current accessors answer "key not found" instead of an empty list (witness and description: known_test.go).
 const keyEmptyGap = "c18-blocktransactions-empty-blocks-left-without-entry"
 
 type flags struct {
@@ -395,6 +396,9 @@ func (k *realCase) scenario(first interruption, extra []interruption, final flag
 		res := runOnce(img, k.net, fl, crashAt, cancelAt, g)
 		if res.f.gateTimedOut {
 			c.Info("gate-timeouts")
+			if os.Getenv("C18_DEBUG") != "" {
+				fmt.Println("GATE TIMEOUT", what, "stages", res.f.commitStage, "crashed", res.crashed, "cancelled", res.cancelled, "hit", res.f.hitStage, res.f.hitStageCommits, res.runErr)
+			}
 		}
 		if res.newRunnerErr != nil {
 			c.Violation("restart-refused", "%s: NewRunner refused: %v", what, res.newRunnerErr)
